@@ -80,6 +80,12 @@ def variants_of(task):
             for where in [None] + list(range(nfor)):
                 if nfor:
                     add('split(factor=%d,%s,where=%s)' % (factor, strat.name, where), lambda: st.split(f, factor, where, strategy=strat), strict_ok(factor) if strat.name == 'STRICT' else None)
+    if 'split_var' in p['tags']:
+        # the factor is read from the parameter k (a run-time value): STRICT asserts divisibility by it
+        kval = next(c[1] for c in task['shape'] if c[0] == 'int')
+        for strat in SplitLoopStrategy:
+            add('split(factor=k,%s)' % strat.name, lambda: st.split(f, 'k', None, strategy=strat),
+                (lambda ex: isinstance(ex, AssertionError)) if (strat.name == 'STRICT' and any(n % kval != 0 for n in lens[:1])) else None)
     add('elim_iter', lambda: st.elim_iter(f))
     add('elim_iter(no-zip)', lambda: st.elim_iter(f, enable_zip=False))
     add('elim_iter(no-enumerate)', lambda: st.elim_iter(f, enable_enumerate=False))
